@@ -14,7 +14,7 @@ import (
 // the first one; cookie requests are never timer-driven.
 
 type C13Step struct {
-	Kind    string `json:"kind"` // first | echo | nocookie | wrong | stale | trunc | extend | alter:<field> | garbage
+	Kind    string `json:"kind"` // first | echo | nocookie | wrong | stale | trunc | extend | alter:<field> | garbage | refirst
 	Repeat  int    `json:"repeat"`
 	GapMs   int    `json:"gap_ms"`
 	FromAlt bool   `json:"from_alt,omitempty"` // sent from another source address
@@ -26,13 +26,16 @@ type C13Params struct {
 	NoBack   bool      `json:"nobackoff"`
 	FlightMs int       `json:"flight_ms"`
 	Steps    []C13Step `json:"steps"`
+	// UnknownSID: every ClientHello of the run offers a session ID the server's store does not
+	// know (an attempt to resume a session the server has forgotten, or never had)
+	UnknownSID int `json:"unknown_sid,omitempty"` // 0 none, else length of the offered ID
 }
 
 var c13Alters = []string{"random", "sessionid", "suites", "compression", "ext-add", "ext-drop", "ext-change", "version"}
 
 func c13Counts(tier string) (int, int) {
 	// enumerated: first hello followed by every single second-hello kind, both versions
-	kinds := 7 + len(c13Alters)
+	kinds := len(c13Kinds())
 	if tier == "thorough" {
 		return 3 * kinds * 4, 100000000
 	}
@@ -41,7 +44,7 @@ func c13Counts(tier string) (int, int) {
 }
 
 func c13Kinds() []string {
-	ks := []string{"echo", "nocookie", "wrong", "stale", "trunc", "extend", "garbage"}
+	ks := []string{"echo", "nocookie", "wrong", "stale", "trunc", "extend", "garbage", "refirst"}
 	for _, a := range c13Alters {
 		ks = append(ks, "alter:"+a)
 	}
@@ -61,11 +64,18 @@ func c13Gen(r *rand.Rand, tier string, idx int) any {
 		gap := []int{0, 600000, 20, 1500}[k/len(kinds)]
 		p.Steps = []C13Step{{Kind: "first", Repeat: 1}, {Kind: kind, Repeat: rep, GapMs: gap}, {Kind: "echo", Repeat: 1, GapMs: 10}}
 		p.NoBack = k%2 == 1
+		if k/len(kinds) >= 2 && p.Ver == 12 {
+			p.Store, p.UnknownSID = true, []int{4, 32}[k%2]
+		}
 
 		return p
 	}
 	p.Ver = vers[r.IntN(3)]
 	p.Store = r.IntN(4) == 0
+	if r.IntN(3) == 0 {
+		p.Store = p.Store || r.IntN(2) == 0
+		p.UnknownSID = []int{1, 4, 32}[r.IntN(3)]
+	}
 	p.NoBack = r.IntN(3) == 0
 	p.FlightMs = []int{0, 50, 300}[r.IntN(3)]
 	n := 1 + r.IntN(6)
@@ -310,6 +320,17 @@ func c13Run(rc *RunCtx, params any) {
 		return
 	}
 	ch1 := chs[0].Body
+	if p.UnknownSID > 0 {
+		if lp, ok := locateCH(ch1); ok {
+			o := append([]byte(nil), ch1[:lp.sidOff]...)
+			o = append(o, byte(p.UnknownSID))
+			for i := 0; i < p.UnknownSID; i++ {
+				o = append(o, byte(0xd0+i))
+			}
+			ch1 = append(o, ch1[lp.cookieOff:]...)
+			s.Probe("first-hello-offers-unknown-session")
+		}
+	}
 	// ---- the server under test ----
 	n := NewSimNet(s, NetRules{})
 	ssock := n.NewConn("s", Addr(2, 4444))
@@ -342,6 +363,7 @@ func c13Run(rc *RunCtx, params any) {
 	var sends []sent
 	recSeq := uint64(0)
 	msgSeq := 0
+	lastFirstMsgSeq := -1
 	scan := func() { // learn cookies from what the server has emitted so far
 		for _, em := range n.EmitsOf("s") {
 			recs, _ := ParseDatagram(em.Data, 0)
@@ -409,6 +431,13 @@ func c13Run(rc *RunCtx, params any) {
 				body = setCookie(ch1, ck)
 			case st.Kind == "extend":
 				body = setCookie(ch1, append(append([]byte(nil), lastCookie...), 0))
+			case st.Kind == "refirst":
+				// the client's retransmission of its cookie-less ClientHello: same message, same
+				// message_seq, fresh record number
+				body = lastFirst
+				if body == nil {
+					body = setCookie(ch1, nil)
+				}
 			case st.Kind == "garbage":
 				body = []byte{0xfe, 0xfd, 1, 2, 3}
 			case len(st.Kind) > 6 && st.Kind[:6] == "alter:":
@@ -421,11 +450,18 @@ func c13Run(rc *RunCtx, params any) {
 			if st.FromAlt {
 				from = altAddr
 			}
-			dg := wrapCH(body, msgSeq, recSeq)
+			useSeq := msgSeq
+			if st.Kind == "refirst" && lastFirstMsgSeq >= 0 {
+				useSeq = lastFirstMsgSeq
+				s.Probe("first-hello-retransmitted")
+			} else {
+				msgSeq++
+			}
+			dg := wrapCH(body, useSeq, recSeq)
 			recSeq++
-			msgSeq++
-			if st.Kind == "first" || st.Kind == "nocookie" {
+			if st.Kind == "first" || st.Kind == "nocookie" || (st.Kind == "refirst" && lastFirstMsgSeq < 0) {
 				lastFirst = body
+				lastFirstMsgSeq = useSeq
 			}
 			n.InjectNow(from, Addr(2, 4444), dg)
 			s.Settle()
@@ -435,7 +471,7 @@ func c13Run(rc *RunCtx, params any) {
 				validDelivered = true
 				s.Probe("valid-echo-delivered")
 			}
-			if !valid && (st.Kind != "first" && st.Kind != "nocookie" && st.Kind != "garbage") {
+			if !valid && (st.Kind != "first" && st.Kind != "nocookie" && st.Kind != "garbage" && st.Kind != "refirst") {
 				s.Probe("invalid-second-hello:" + st.Kind)
 			}
 			// ---- oracle, evaluated after every delivery ----
